@@ -460,7 +460,7 @@ fn point_cb(id: u32) {
             sleep_us(u64::from(d));
         }
     }
-    if (304..=307).contains(&id) {
+    if (304..=307).contains(&id) && LATE_CHECK_ON.load(Ordering::Relaxed) {
         // thread-side epilogue (checked after the seeded delay): if the joiner has already seen `join`
         // return, join did not wait for this thread to finish
         let t = gettid() as usize & 0xFFFF;
@@ -468,8 +468,17 @@ fn point_cb(id: u32) {
         if slot > 0 && JOINED[(slot - 1) as usize].load(Ordering::Relaxed) == 1 {
             LATE_THREAD_CODE.fetch_add(1, Ordering::Relaxed);
         }
+        if id == 305 && slot > 0 {
+            // last thing before the thread's hand-over compare-exchange (dropsweep locks its phase on this)
+            AT_HANDOVER[(slot - 1) as usize].store(1, Ordering::Release);
+        }
     }
 }
+/// set by the thread immediately before its hand-over compare-exchange
+static AT_HANDOVER: [AtomicU32; MAXT] = [const { AtomicU32::new(0) }; MAXT];
+/// the "epilogue ran after join returned" oracle costs a system call per epilogue point; dropsweep, which needs
+/// the two sides a few nanoseconds apart, switches it off
+static LATE_CHECK_ON: AtomicBool = AtomicBool::new(true);
 /// 0 = never; otherwise roughly one in SPUR_ONE_IN futex waits gets an injected early return
 static SPUR_ONE_IN: AtomicU32 = AtomicU32::new(0);
 static SPUR_STATE: AtomicU64 = AtomicU64::new(0x1234_5678_9ABC_DEF1);
@@ -1376,6 +1385,151 @@ fn scen_churn(seed: u64, reps: usize, per: usize) {
     emit_points();
 }
 
+
+/// The handle is dropped at (almost) the instant the thread hands its result over: the closure raises a flag as
+/// its last act, the dropper waits for exactly that flag, then both sides spin for independent random 0..SWEEP
+/// iterations before the thread returns from the closure / the handle is dropped. This is where the two sides'
+/// decisions about who frees the join state can interleave instruction by instruction. No hook point or system
+/// call lies inside that window, so it cannot be widened by a delay; only many tries at the right phase reach it.
+fn scen_dropsweep(seed: u64, n: usize) {
+    const SWEEP: u64 = 128;
+    let mut r = Rng(seed);
+    let before = snapshot();
+    LATE_CHECK_ON.store(false, Ordering::Relaxed);
+    let mut o = Out {
+        spawned: 0,
+        joined_some: 0,
+        joined_none: 0,
+        dropped: 0,
+        spawn_err: 0,
+    };
+    let total = n * 100;
+    for i in 0..total {
+        let idx = i % MAXT;
+        RUNS[idx].store(0, Ordering::Relaxed);
+        DONE[idx].store(0, Ordering::Relaxed);
+        let tag = mix(seed, i as u64);
+        let (cd, pd) = (r.below(SWEEP), r.below(SWEEP));
+        let wait_and_drop = |idx: usize| {
+            let mut k = 0u64;
+            while DONE[idx].load(Ordering::Acquire) == 0 && k < 2_000_000_000 {
+                core::hint::spin_loop();
+                k += 1;
+            }
+            for _ in 0..pd {
+                core::hint::spin_loop();
+            }
+        };
+        if i % 2 == 0 {
+            let h = tiny_std::thread::spawn(move || {
+                RUNS[idx].fetch_add(1, Ordering::Relaxed);
+                let v = <u64 as Res>::make(tag);
+                DONE[idx].store(1, Ordering::Release);
+                for _ in 0..cd {
+                    core::hint::spin_loop();
+                }
+                v
+            });
+            let Ok(h) = h else {
+                o.spawn_err += 1;
+                continue;
+            };
+            wait_and_drop(idx);
+            drop(h);
+        } else {
+            let h = tiny_std::thread::spawn(move || {
+                RUNS[idx].fetch_add(1, Ordering::Relaxed);
+                let v = <HeapRes as Res>::make(tag);
+                DONE[idx].store(1, Ordering::Release);
+                for _ in 0..cd {
+                    core::hint::spin_loop();
+                }
+                v
+            });
+            let Ok(h) = h else {
+                o.spawn_err += 1;
+                continue;
+            };
+            wait_and_drop(idx);
+            drop(h);
+        }
+        o.spawned += 1;
+        o.dropped += 1;
+        if i % 64 == 63 && !quiesce() {
+            println!("@@INCONCLUSIVE threads did not all exit (dropsweep)");
+            LATE_CHECK_ON.store(true, Ordering::Relaxed);
+            return;
+        }
+    }
+    LATE_CHECK_ON.store(true, Ordering::Relaxed);
+    if !quiesce() {
+        println!("@@INCONCLUSIVE threads did not all exit (dropsweep)");
+        return;
+    }
+    for i in 0..total.min(MAXT) {
+        let runs = RUNS[i].load(Ordering::Relaxed);
+        if runs != 1 {
+            viol("C05/closure-run-count", "dropsweep", i as u64, u64::from(runs), 0);
+        }
+    }
+    leak_check("dropsweep", &before, 0, o.dropped);
+    // which side released the join state: both must have happened for the window to have been straddled
+    let thread_side = POINT_HITS[6].load(Ordering::Relaxed);
+    let handle_side = POINT_HITS[3].load(Ordering::Relaxed);
+    println!("@@EVAL {}", o.spawned);
+    println!("@@COUNT threads_spawned {}", o.spawned);
+    println!("@@COUNT handles_dropped {}", o.dropped);
+    println!("@@COUNT dropsweep_thread_freed_join_state {thread_side}");
+    println!("@@COUNT dropsweep_handle_freed_join_state {handle_side}");
+    if thread_side > 0 && handle_side > 0 {
+        println!("@@DISTINCT dropsweep/both-sides-of-the-hand-over-seen");
+    }
+    println!(
+        "@@SAMPLE {{\"scenario\":\"dropsweep\",\"threads\":{},\"join_state_freed_by_thread\":{thread_side},\"join_state_freed_by_handle\":{handle_side},\"sweep_spins\":{SWEEP}}}",
+        o.spawned
+    );
+    emit_points();
+}
+
+struct PanicsWhenDisplayed;
+impl core::fmt::Display for PanicsWhenDisplayed {
+    fn fmt(&self, _f: &mut core::fmt::Formatter<'_>) -> core::fmt::Result {
+        panic!("expected panic inside a Display impl (thread_probe)");
+    }
+}
+
+/// A closure that panics while it is printing (inside the arguments of `eprintln!`, i.e. with the print lock
+/// held by the panicking thread). join must still return None. One such thread per process: the lock of a
+/// thread that died while printing stays taken, which is the program's business, not the runtime's.
+fn scen_panic_in_print(seed: u64) {
+    let tag = mix(seed, 1);
+    RUNS[0].store(0, Ordering::Relaxed);
+    let h = tiny_std::thread::spawn(move || {
+        TIDMAP[gettid() as usize & 0xFFFF].store(1, Ordering::Relaxed);
+        RUNS[0].fetch_add(1, Ordering::Relaxed);
+        tiny_std::eprintln!("thread_probe: about to display {}", PanicsWhenDisplayed);
+        tag
+    });
+    let Ok(h) = h else {
+        println!("@@INCONCLUSIVE spawn failed (panic_in_print)");
+        return;
+    };
+    marker::report(78, 0, 0, 0, 0); // about to join: a hang from here on is certified from the tracer's samples
+    let got = h.join();
+    JOINED[0].store(1, Ordering::Relaxed);
+    if got.is_some() {
+        viol("C05/join-some-after-panic", "panic inside print arguments", 0, 0, 0);
+    }
+    if RUNS[0].load(Ordering::Relaxed) != 1 {
+        viol("C05/closure-run-count", "panic_in_print", 0, u64::from(RUNS[0].load(Ordering::Relaxed)), 0);
+    }
+    let _ = quiesce();
+    println!("@@EVAL 1");
+    println!("@@DISTINCT panic/inside-print-arguments");
+    println!("@@SAMPLE {{\"scenario\":\"panic_in_print\",\"join_returned_none\":{}}}", got.is_none());
+    emit_points();
+}
+
 /// one un-injected spawn between markers: the driver reads from the tracer's log which system calls spawn
 /// performs (their numbers and how often), and then asks for `fault_nr` runs failing each of them
 fn scen_fault_discover(seed: u64) {
@@ -1522,6 +1676,8 @@ pub fn main() -> i32 {
         b"spurious_wake" => scen_spurious(seed, n, 2),
         b"latewake" => scen_latewake(seed, n),
         b"exit_window" => scen_exit_window(seed, n),
+        b"dropsweep" => scen_dropsweep(seed, n),
+        b"panic_in_print" => scen_panic_in_print(seed),
         b"mixed" => {
             scen_mixed(seed, n, 8);
             scen_mixed(seed ^ 0x55, n, 64);
